@@ -474,11 +474,22 @@ def _emptiness(e, pol):
             and const(e.comparators[0], int):
         k, op = e.comparators[0].value, type(e.ops[0])
         x = e.left.args[0]
-        table = {(ast.Eq, 0): True, (ast.NotEq, 0): False, (ast.Gt, 0): False, (ast.GtE, 1): False, (ast.Lt, 1): True, (ast.LtE, 0): True}
-        if (op, k) in table:
-            r = table[(op, k)]
-            return x, (r if pol else not r)
-        return None
+        import operator as _o
+        f = {ast.Eq: _o.eq, ast.NotEq: _o.ne, ast.Gt: _o.gt, ast.GtE: _o.ge, ast.Lt: _o.lt, ast.LtE: _o.le}.get(op)
+        if f is None:
+            return None
+        # which lengths satisfy the fact: 0 / some length >= 1 (the comparison is monotone: 1, k-1, k, k+1 are enough)
+        can_empty = f(0, k) == pol
+        can_nonempty = any(f(n, k) == pol for n in {1, max(1, k - 1), max(1, k), max(1, k + 1)})
+        if can_empty and not can_nonempty:
+            return x, True
+        if can_nonempty and not can_empty:
+            return x, False
+        return x, "any"            # says nothing about emptiness (e.g. len(X) >= 0)
+    if isinstance(e, ast.Compare) and len(e.ops) == 1 and any(isinstance(z, ast.Call) and call_name(z) == "len" for z in (e.left, e.comparators[0])) \
+            and not any(const(z, int) for z in (e.left, e.comparators[0])):
+        z = e.left if isinstance(e.left, ast.Call) and call_name(e.left) == "len" else e.comparators[0]
+        return z.args[0], "any"    # compared with another quantity: nothing about emptiness
     if isinstance(e, (ast.Name, ast.Attribute, ast.Subscript)):
         return e, not pol
     return None
@@ -526,7 +537,7 @@ def _r04c(cx, repo, parse):
     contradict = any(x == f"{recv}.values" and is_empty is False for x, is_empty in emp)
     if has:
         cx.ob("R04c", c, True, "the explicit empty span is given only to a node without children", stmt=norm(c)[:60] + " [guard]")
-    elif contradict or not emp:
+    elif contradict or all(is_empty == "any" for _x, is_empty in emp):
         cx.ob("R04c", c, False, "the explicit empty span is given to nodes that have children (their span must come from the children)", stmt=norm(c)[:60] + " [guard]")
     else:
         cx.need(False, "R04c", c, f"the test guarding the empty-node site is not recognised: {emp}")
